@@ -7,7 +7,9 @@ An invocation is abstracted to what `main` looks at:
   `SystemExit(2)`, or `-h` / `--version` leaving with `SystemExit(0)`),
 * the target, whether `-o` names a directory, per `PATH` whether it exists and which `.mo`
   files `list_modelica_files` finds for it (stem, parent directory, outcome of `parse_file`),
-* the `-O` strings (well-formedness is computed here, as the code does, with `split("=")`),
+* per `-O` string whether the tool accepts it as `NAME=VALUE` (which spellings are accepted is
+  implementation-defined — `split`, `partition`, stripping … — and not part of the property; the
+  verdict is an input, like the outcome of parsing a file),
 * per requested model the outcome of what `main` would call for it: `flatten_class`,
   `translate(…, "sympy", …)`, `casadi_api.transfer_model(dir, …)` per candidate directory.
 
@@ -69,7 +71,8 @@ structure Inv where
   target   : Target
   outdirOk : Bool
   paths    : List PathInfo
-  options  : List String
+  /-- per `-O` argument: accepted as `NAME=VALUE` (`true`) or counted as a usage error -/
+  options  : List Bool
   models   : List ModelReq
   deriving Repr
 
@@ -82,14 +85,11 @@ inductive Outcome
   | raised
   deriving DecidableEq, Repr
 
-/-- `len(opt.split("=")) == 2`. -/
-def wellFormed (opt : String) : Bool := (opt.splitOn "=").length == 2
-
 /-- The additional argument checks before any file is read (`errors` at `if errors: return`). -/
 def usageErrors (inv : Inv) : Nat :=
   (if inv.outdirOk then 0 else 1)
     + (inv.paths.filter (fun p => !p.pexists)).length
-    + (inv.options.filter (fun o => !wellFormed o)).length
+    + (inv.options.filter (fun o => !o)).length
 
 /-- `list_modelica_files(args.PATH)`. -/
 def allFiles (inv : Inv) : List FileInfo := inv.paths.flatMap (·.files)
